@@ -51,7 +51,7 @@ package cpumem
 //@     decreases deployCount - len(enginesParams)
 
 //@ func (Plugin) doAllocByCPU
-//@   requires resourceInfo != nil && req != nil && deployCount >= 0
+//@   requires okInfo(resourceInfo) && req != nil && deployCount >= 0
 //@   ensures[C07.alloc-cpu]  (err == nil) <==> (len(res(schedule.GetCPUPlans)) >= deployCount)
 //@   ensures[C07.alloc-cpu-args] arg(schedule.GetCPUPlans, 0) == resourceInfo && isnil(arg(schedule.GetCPUPlans, 1))
 //@                              && arg(schedule.GetCPUPlans, 2) == p.config.Scheduler.ShareBase && arg(schedule.GetCPUPlans, 3) == p.config.Scheduler.MaxShare
